@@ -9,6 +9,9 @@ import (
 	"context"
 	"errors"
 	"fmt"
+	"io"
+	"net"
+	"net/http"
 	"os"
 	"os/signal"
 	"slices"
@@ -66,7 +69,9 @@ type SignalCase struct {
 	// 4 waits until the context is done and returns nil, 5 panics with a
 	// runtime.Error (nil map write), 6 panics with an error value, 7 panic(nil),
 	// 8 panics with a runtime.Error (index out of range), 9 returns a non-nil
-	// error whose Error method panics (a typed-nil error).
+	// error whose Error method panics (a typed-nil error), 10.. returns a
+	// well-known sentinel error (net.ErrClosed, os.ErrClosed, io.EOF,
+	// context.Canceled, http.ErrServerClosed, ...), bare, wrapped or joined.
 	Outcomes []int `json:"outcomes"`
 	// SvcTypes (cycled per service): 0 *struct, 1 func adapter (an unhashable
 	// type), 2 struct value with a slice field (unhashable), 3 comparable
@@ -180,8 +185,22 @@ func (s *svc) Shutdown(ctx context.Context) error {
 		var e *svcError
 		return e
 	}
+	if s.outcome >= 10 {
+		// A well-known sentinel error, bare or wrapped: to a caller of
+		// Shutdown each of them is a non-nil error like any other.
+		err := sentinels[(s.outcome-10)%len(sentinels)]
+		switch s.id % 3 {
+		case 1:
+			err = fmt.Errorf("service %d: closing: %w", s.id, err)
+		case 2:
+			err = errors.Join(err)
+		}
+		return err
+	}
 	return nil
 }
+
+var sentinels = []error{net.ErrClosed, os.ErrClosed, io.EOF, context.Canceled, context.DeadlineExceeded, http.ErrServerClosed, os.ErrNotExist, io.ErrClosedPipe, io.ErrUnexpectedEOF, os.ErrDeadlineExceeded, errors.ErrUnsupported, syscall.EINTR, syscall.EPIPE}
 
 type svcError struct{ msg string }
 
@@ -465,7 +484,7 @@ var signalProp = vp.Register(vp.Prop[SignalCase]{
 		return SignalCase{
 			Groups:          rapid.SliceOfN(rapid.IntRange(1, 4), 0, 4).Draw(t, "groups"),
 			RegMode:         rapid.IntRange(0, 2).Draw(t, "regmode"),
-			Outcomes:        rapid.SliceOfN(rapid.SampledFrom([]int{0, 0, 0, 0, 1, 1, 2, 2, 3, 4, 5, 6, 7, 8, 9}), 0, 6).Draw(t, "outcomes"),
+			Outcomes:        rapid.SliceOfN(rapid.SampledFrom([]int{0, 0, 0, 0, 0, 1, 1, 2, 2, 3, 4, 5, 6, 7, 8, 9, 10, 11, 12, 13, 14, 15, 16, 17, 18, 19, 20, 21, 22}), 0, 6).Draw(t, "outcomes"),
 			SvcTypes:        rapid.SliceOfN(rapid.SampledFrom([]int{0, 0, 0, 1, 2, 3}), 0, 4).Draw(t, "svctypes"),
 			CancelledParent: rapid.IntRange(0, 5).Draw(t, "cancelled") == 0,
 			NotifierEdits:   rapid.SampledFrom([]int{0, 0, 0, 1, 2, 3}).Draw(t, "edits"),
